@@ -36,6 +36,23 @@ def close(a, b, rtol=1e-9):
     return bool(np.all(np.abs(a - b) <= rtol * sc))
 
 
+def phase_tol(*phases, base=1e-9):
+    """tolerance for comparing exp(j*phase): one rounding of a phase of magnitude |phi| already moves the phasor by eps*|phi|,
+    whatever the order in which pi, u and Vpi are combined (large pedestals, tiny Vpi)."""
+    m = sum(float(np.max(np.abs(ph))) if np.size(ph) else 0.0 for ph in phases)
+    return max(base, 64 * np.finfo(float).eps * m)
+
+
+def pick_vpi(rng):
+    """Vpi > 0: ordinary values, and in a quarter of the cases extreme ones (every drive is generated relative to Vpi)"""
+    c = int(rng.integers(8))
+    if c == 0:
+        return float(rng.choice([1e-12, 1e-9, 1e-6, 1e-3, 1e3, 1e6]))
+    if c == 1:
+        return float(10 ** rng.uniform(-12, 6))
+    return float(rng.uniform(0.5, 10))
+
+
 def setup(ctx):
     global D, T
     import opticomlib.devices as dv
@@ -52,6 +69,7 @@ def setup(ctx):
                 n = op_input.len()
                 u = drive_array(el_input, n)
                 h = transfer(np.real(u), bias, Vpi, loss_dB, ER_dB)
+                tol = phase_tol(np.pi * (np.real(u).astype(float) + bias) / (2 * Vpi))
                 ws = op_input.signal * h
                 wn = None if op_input.noise is None else op_input.noise * h
                 if op_input.n_pol == 2:
@@ -67,8 +85,8 @@ def setup(ctx):
                 ok = isinstance(r, T.optical_signal) and r.n_pol == op_input.n_pol and r.len() == n
                 ctx.check("mzm.post", ok, "MZM changed class / n_pol / length")
                 if ok:
-                    ctx.check("mzm.post", close(r.signal, ws), "MZM output signal != sqrt(loss)*(cos(theta)+j*10^(-ER/20)*sin(theta)) * input", Vpi=Vpi, bias=bias, loss_dB=loss_dB, ER_dB=ER_dB, pol=pol, BW=BW)
-                    ctx.check("mzm.noise", (r.noise is None) == (wn is None) and (wn is None or close(r.noise, wn)), "MZM: accompanying noise is not modulated exactly like the signal", pol=pol, n_pol=op_input.n_pol)
+                    ctx.check("mzm.post", close(r.signal, ws, tol), "MZM output signal != sqrt(loss)*(cos(theta)+j*10^(-ER/20)*sin(theta)) * input", Vpi=Vpi, bias=bias, loss_dB=loss_dB, ER_dB=ER_dB, pol=pol, BW=BW)
+                    ctx.check("mzm.noise", (r.noise is None) == (wn is None) and (wn is None or close(r.noise, wn, tol)), "MZM: accompanying noise is not modulated exactly like the signal", pol=pol, n_pol=op_input.n_pol)
                     if BW is None:
                         lim = np.sqrt(10 ** (-loss_dB / 10)) * np.abs(op_input.signal)
                         ctx.check("mzm.passive", np.all(np.abs(r.signal) <= lim * (1 + 1e-9) + 1e-300), "MZM amplifies: |out| > sqrt(loss)*|in| at some sample")
@@ -85,11 +103,12 @@ def setup(ctx):
                 n = op_input.len()
                 u = np.real(drive_array(el_input, n))
                 rot = np.exp(1j * np.pi * u / Vpi)
+                tol = phase_tol(np.pi * u.astype(float) / Vpi)
                 ok = isinstance(r, T.optical_signal) and r.n_pol == op_input.n_pol and r.len() == n
                 ctx.check("pm.post", ok, "PM changed class / n_pol / length")
                 if ok:
-                    ctx.check("pm.post", close(r.signal, op_input.signal * rot), "PM output signal != input * exp(j*pi*u/Vpi)", Vpi=Vpi)
-                    ctx.check("pm.noise", (r.noise is None) == (op_input.noise is None) and (op_input.noise is None or close(r.noise, op_input.noise * rot)),
+                    ctx.check("pm.post", close(r.signal, op_input.signal * rot, tol), "PM output signal != input * exp(j*pi*u/Vpi)", Vpi=Vpi)
+                    ctx.check("pm.noise", (r.noise is None) == (op_input.noise is None) and (op_input.noise is None or close(r.noise, op_input.noise * rot, tol)),
                               "PM: noise component is not rotated like the signal (or was dropped)", noise_sum=None if op_input.noise is None else complex(np.sum(op_input.noise)))
                     tin = op_input.signal + (op_input.noise if op_input.noise is not None else 0)
                     tout = r.signal + (r.noise if r.noise is not None else 0)
@@ -143,8 +162,13 @@ def make_field(rng, n, n_pol, noise_kind, real=False):
 
 
 def make_drive(rng, n, Vpi):
-    kind = str(rng.choice(["random", "sine", "const", "bits", "ramp", "int_levels", "bool_levels"]))
-    if kind == "random":
+    kinds = ["random", "sine", "const", "bits", "ramp", "pedestal"]
+    if 0.1 <= Vpi <= 100:
+        kinds += ["int_levels", "bool_levels"]                   # drives in volts, not relative to Vpi
+    kind = str(rng.choice(kinds))
+    if kind == "pedestal":                                       # a small modulation riding on a huge offset
+        u = Vpi * (float(10 ** rng.uniform(2, 7)) + rng.uniform(0.1, 2) * np.sin(2 * np.pi * rng.uniform(0.01, 0.4) * np.arange(n)))
+    elif kind == "random":
         u = rng.normal(0, Vpi, n)
     elif kind == "sine":
         u = Vpi * rng.uniform(0.1, 2) * np.sin(2 * np.pi * rng.uniform(0.01, 0.4) * np.arange(n) + rng.uniform(0, 6))
@@ -177,7 +201,7 @@ def w_mzm(ctx, rng, i):
     n_pol = int(rng.integers(1, 3))
     noise_kind = str(rng.choice(["none", "random", "random", "sum_zero", "zeros"]))
     x = make_field(rng, n, n_pol, noise_kind, real=bool(rng.integers(5) == 0))
-    Vpi = float(rng.uniform(0.5, 10))
+    Vpi = pick_vpi(rng)
     bias = float(rng.uniform(-2 * Vpi, 2 * Vpi))
     loss = float(rng.uniform(0, 20)) if rng.integers(4) else 0.0
     ER = float(rng.uniform(0, 60)) if i % 9 else float([0.0, 60.0, 26.0][i // 9 % 3])
@@ -202,7 +226,7 @@ def w_mzm(ctx, rng, i):
         # periodicity of the output power in the drive: u -> u + 2*Vpi
         k = int(rng.choice([-2, -1, 1, 2]))
         shifted = D.MZM(x, u.astype(float) + 2 * Vpi * k, bias=bias, Vpi=Vpi, loss_dB=loss, ER_dB=ER, pol=pol)
-        ctx.check("mzm.relations", close(np.abs(shifted.signal) ** 2, np.abs(outs["ndarray"].signal) ** 2, rtol=1e-8), "MZM output power is not 2*Vpi-periodic in the drive")
+        ctx.check("mzm.relations", close(np.abs(shifted.signal) ** 2, np.abs(outs["ndarray"].signal) ** 2, rtol=max(1e-8, 8 * phase_tol(np.pi * (u.astype(float) + bias) / (2 * Vpi), [np.pi * k]))), "MZM output power is not 2*Vpi-periodic in the drive")
         # with a bandwidth: equals BPF of the closed form (postcondition handles it)
         if n >= 64 and rng.integers(3) == 0:
             D.MZM(x, u, bias=bias, Vpi=Vpi, loss_dB=loss, ER_dB=ER, pol=pol, BW=float(rng.uniform(0.1, 0.8)) * T.gv.fs)
@@ -222,7 +246,7 @@ def w_mzm_er(ctx, rng, i):
     """on/off power ratio equals ER_dB: CW input, drive at the transmission maximum / minimum."""
     n = 8
     n_pol = int(rng.integers(1, 3))
-    Vpi = float(rng.uniform(0.5, 10))
+    Vpi = pick_vpi(rng)
     ER = float(rng.uniform(0, 60))
     loss = float(rng.uniform(0, 20))
     bias = float(rng.uniform(-Vpi, Vpi))
@@ -250,7 +274,7 @@ def w_pm(ctx, rng, i):
     n_pol = int(rng.integers(1, 3))
     noise_kind = str(rng.choice(["none", "random", "sum_zero", "sum_zero", "zeros"]))
     x = make_field(rng, n, n_pol, noise_kind, real=bool(rng.integers(5) == 0))
-    Vpi = float(rng.uniform(0.5, 10))
+    Vpi = pick_vpi(rng)
     dkind, a = make_drive(rng, n, Vpi)
     _, b = make_drive(rng, n, Vpi)
     ctx.describe(n=n, n_pol=n_pol, noise=noise_kind, Vpi=Vpi, drive=dkind)
@@ -266,7 +290,8 @@ def w_pm(ctx, rng, i):
         D.PM(x, int(rng.integers(-5, 6)), Vpi)
         yab = D.PM(ya, b, Vpi)
         y2 = D.PM(x, a.astype(float) + b.astype(float), Vpi)
-        ctx.check("pm.compose", close(yab.signal, y2.signal) and ((yab.noise is None) == (y2.noise is None)) and (y2.noise is None or close(yab.noise, y2.noise)), "PM(PM(x,a),b) != PM(x,a+b)")
+        ctol = 4 * phase_tol(np.pi * a.astype(float) / Vpi, np.pi * b.astype(float) / Vpi)
+        ctx.check("pm.compose", close(yab.signal, y2.signal, ctol) and ((yab.noise is None) == (y2.noise is None)) and (y2.noise is None or close(yab.noise, y2.noise, ctol)), "PM(PM(x,a),b) != PM(x,a+b)")
         ctx.check("pm.input_unchanged", core.digest(x.signal, x.noise, a) == d0, "PM modified its inputs")
         ctx.raises("pm.errors", ValueError, D.PM, x, np.zeros(n + int(rng.integers(1, 4))), Vpi)
         ctx.raises("pm.errors", ValueError, D.PM, x, T.electrical_signal(np.zeros(n + 1)), Vpi)
